@@ -5,6 +5,7 @@ pub type AreaFn = fn(&Value) -> Vec<Value>;
 
 pub mod co;
 pub mod sched;
+mod pool;
 mod ows;
 mod time;
 
@@ -14,6 +15,7 @@ pub fn lookup(name: &str) -> Option<AreaFn> {
         "ows" => Some(ows::run),
         "co" => Some(co::run),
         "sched" => Some(sched::run),
+        "pool" => Some(pool::run),
         _ => None,
     }
 }
